@@ -6,7 +6,7 @@ Binding: the object package is auto-instrumented at build time (harness/cmd/hook
 operation and at every statement touching a package-level variable of object/hashtable.go); the events of
 interpreter start-up (19 goroutines) and of N concurrent evaluations are validated against PanLockset by Trace_C20.
 """
-import json
+import json, re
 import pvlib
 from pvlib import Check, run_tlc, run_cases, ndjson
 
@@ -16,7 +16,7 @@ def programs(rng, ngor, per):
     for g in range(ngor):
         for k in range(per):
             tag = f"{g}_{k}_{rng.randint(0, 10**6)}"
-            kind = rng.randint(0, 5)
+            kind = rng.randint(0, 8)
             if kind == 0:
                 progs.append(f"v_{tag} := {k}; o := {{k_{tag}: v_{tag}}}; o.k_{tag} + 1")
             elif kind == 1:
@@ -27,9 +27,83 @@ def programs(rng, ngor, per):
                 progs.append(f"f_{tag} := {{|x_{tag}, kw_{tag}: 1| x_{tag} + kw_{tag}}}; f_{tag}(1, kw_{tag}: 2)")
             elif kind == 4:
                 progs.append(f"\"p_{tag} := 1; q := p_{tag}\".evalEnv.items; {{a_{tag}: 1, **{{b_{tag}: 2}}}}.keys")
-            else:
+            elif kind == 5:
                 progs.append(f"[1, 2, 3]@{{|e_{tag}| e_{tag} * 2}}.sum; 'sym_{tag}.S")
+            elif kind == 6:       # calls with more arguments than any earlier call of the process (argument-variable names \\9, \\10, ...)
+                n = 9 + 4 * k + rng.randint(0, 3)
+                progs.append("{[\\1, \\%d]}(%s)" % (n, ", ".join(str(i) for i in range(1, n + 1))) + "; {\\0.len}(%s)" % ", ".join(str(i) for i in range(n + 2)))
+            elif kind == 7:       # the same symbol converted back to a str by several evaluations, then hashed / compared / used as a key
+                progs.append(f"k := \"shared{k} := 1; own_{tag} := 2\".evalEnv.keys; [k[1] == \"shared{k}\", %{{k[1]: 1}}[k[1]], %{{k[0]: 1}}[k[0]], {{shared{k}: 1}}.which(k[1])]")
+            else:
+                progs.append(f"o := {{shared{k}: 1, b_{tag}: 2}}; o.keys@{{|x| x == 'shared{k}}}; %{{**o}}.keys; JSON.dec(`{{\"shared{k}\": 1}}`).keys[0] == \"shared{k}\"")
     return progs
+
+
+MOD = "github.com/Syuparn/pangaea/"
+
+
+def race_rounds(rng, thorough):
+    """Barrier rounds for the race-detector channel: every goroutine evaluates the same program at the same moment.
+    @G@ is replaced by the goroutine's number (the reference evaluation uses the next number)."""
+    rounds = []
+    for n in range(9, 49 if thorough else 41):        # calls with more arguments than any earlier call of the process
+        rounds.append({"warm": "nil.try.{\\%d}" % n, "prog": "{[\\1, \\%d]}(%s)" % (n, ", ".join(map(str, range(1, n + 1))))})
+    for k in range(40 if thorough else 16):
+        t = f"r{k}_{rng.randint(0, 10**6)}"
+        kind = k % 8
+        if kind == 0:      # one symbol, interned earlier, converted back by all and hashed / compared / used as a key for the first time
+            rounds.append({"warm": f"c20sym_{t} := 1", "prog": f'k := "c20sym_{t} := 1".evalEnv.keys[0]; [k == "c20sym_{t}", %{{k: 1}}[k], {{c20sym_{t}: 2}}.which(k)]'})
+        elif kind == 1:    # all intern the SAME new symbol at once
+            rounds.append({"warm": "", "prog": f"same_{t} := 1; {{same_{t}: same_{t}}}.keys"})
+        elif kind == 2:    # each interns a new symbol of its own while the others do
+            rounds.append({"warm": "", "prog": f"own_{t}_g@G@ := 1; {{own_{t}_g@G@: 2}}.keys"})
+        elif kind == 3:    # writers (new JSON keys) against readers (symbols back to strs)
+            rounds.append({"warm": f"old_{t} := 1", "prog": f'[JSON.dec(`{{"j_{t}_g@G@": 1, "old_{t}": 2}}`).keys, "old_{t} := 1; b := 2".evalEnv.items]'})
+        elif kind == 4:    # keyword arguments and their names
+            rounds.append({"warm": "", "prog": f"f := {{|x, kw_{t}: 1, kv_{t}_g@G@: 2| [x, kw_{t}, \\_]}}; f(1, kw_{t}: 3, zz_{t}: 4)"})
+        elif kind == 5:    # symbols made from strs at run time
+            rounds.append({"warm": "", "prog": f'o := {{a: 1}}.bear; "dyn_{t}".sym?; %{{"dyn_{t}": 1, "dyn_{t}_g@G@": 2}}.O.keys'})
+        elif kind == 6:    # shared built-in objects: property lookup, errors, the `_` value
+            rounds.append({"warm": "", "prog": f"[1.try.nosuch_{t}.err.S, _, Either.A, nil.try.{{|u| 1 / 0}}.A, Int.keys.len]"})
+        else:              # strings shared through the table used as map keys in every evaluation
+            rounds.append({"warm": f"sh_{t} := 1", "prog": f'ks := "sh_{t} := 1; o_{t}_g@G@ := 2".evalEnv.keys; m := %{{}}; ks@{{|k| %{{k: 1}}[k]}}; ks@{{|k| k == "sh_{t}"}}'})
+    return rounds
+
+
+HTTP_SCRIPT = """http := import("http")
+stop := http.S.serve(
+  http.S.get("/echo", {|req| http.Response.new(body: req.headers.keys.S, headers: {"X-Seen": req.headers.keys.len.S, "X-%s": "1"})}),
+  http.S.post("/json", {|req| JSON.dec(req.body).keys.S}),
+  http.S.get("/env", {|req| "hk := 1; hv_%s := 2".evalEnv.keys}),
+  http.S.get("/q", {|req| [req.queries.keys, req.queries.items.len, {|a, b, c, d, e, f, g, h, i, j| \\0.len}(1, 2, 3, 4, 5, 6, 7, 8, 9, 10)].S}),
+  background: true, url: ":@PORT@")
+"""
+
+
+def http_phase(rng, nreq):
+    """the scenario the property names: handlers of the HTTP server module running concurrently with each other and with the main script"""
+    t = str(rng.randint(0, 10**6))
+    reqs = []
+    for i in range(nreq):
+        k = i % 4
+        if k == 0:
+            reqs.append({"method": "GET", "path": "/echo", "headers": {f"Xfresh{t}x{i}": "1", "Xcommon": "2"}, "body": ""})
+        elif k == 1:
+            reqs.append({"method": "POST", "path": "/json", "headers": {"Content-Type": "application/json"}, "body": json.dumps({f"jk{t}x{i}": 1, "shared": 2})})
+        elif k == 2:
+            reqs.append({"method": "GET", "path": "/env", "headers": {}, "body": ""})
+        else:
+            reqs.append({"method": "GET", "path": f"/q?qk{t}x{i}=1&common=2", "headers": {}, "body": ""})
+    main = [f"m{t}x{i} := {i}; {{mk{t}x{i}: m{t}x{i}}}.keys; \"mk{t}x{i} := 1\".evalEnv.keys" for i in range(nreq)]
+    return {"script": HTTP_SCRIPT % (t, t), "requests": reqs, "main": main, "clients": 8}
+
+
+def top_frame(frames):
+    """innermost frame that lies in the interpreter's packages"""
+    for f in frames:
+        if f.startswith(MOD):
+            return f[len(MOD):].split(" ")[0]
+    return None
 
 
 def validate(ck, name, resp):
@@ -110,13 +184,66 @@ def run():
                            f"(goroutine holds {held}; writer={writer})",
                       {"n": ngor, "event_index": consumed + 1, "event": ev, "context": rows[max(1, consumed - 8):consumed + 2],
                        "progs": progs[:6]})
-    ck.cov["evaluations"] = total_events
+    # ---- second observation channel: production build (no hooks) under the Go race detector, barrier rounds first
+    nrace = 0
+    shapes2 = [(8, 1)] if not thorough else [(4, 1), (8, 1), (16, 1), (8, 2)]
+    for ri, (ngor, _) in enumerate(shapes2):
+        rounds = race_rounds(ck.rng, thorough)
+        progs = programs(ck.rng, ngor, 10)
+        http = http_phase(ck.rng, 200 if thorough else 80)
+        resp, reports = pvlib.run_race_driver({"n": ngor, "progs": progs, "rounds": rounds, "http": http})
+        if resp.get("end") != "ok":
+            end = resp.get("end", "")
+            if "concurrent map" in end or "fatal error" in end:
+                ck.reject("C20:fatal:concurrent-map", end[-600:], {"n": ngor, "end": end[-2000:]})
+                continue
+            raise pvlib.Broken(f"race driver failed: {end[-800:]}")
+        rows = [{"nproc": ngor, "g": 0, "ev": "header", "tab": ""}]
+        seen = set()
+        for rep in reports:
+            tops = [(kind, top_frame(fr)) for kind, fr in rep]
+            if len(tops) < 2 or any(t is None for _, t in tops):
+                continue              # an access outside the interpreter's packages (the driver itself)
+            key = "|".join(sorted(f"{k}@{t}" for k, t in tops[:2]))
+            if key in seen:
+                continue
+            seen.add(key)
+            rows.append({"nproc": 0, "g": 1, "ev": "Unsync", "tab": key, "report": [[k, fr[:6]] for k, fr in rep[:2]]})
+        for k, (rd, out) in enumerate(zip(rounds, resp["rounds"])):
+            norm = lambda x: re.sub(r"_g\d+", "_gN", x)
+            if any(norm(c) != norm(out["ref"]) for c in out["conc"]):
+                rows.append({"nproc": 0, "g": 1, "ev": "ResultDiffers", "tab": f"round {k}", "report": [rd["prog"], out["conc"], out["ref"]]})
+        h = resp.get("http") or {}
+        if not str(h.get("start", "")).startswith("val:") or h.get("stop") != "val:nil":
+            raise pvlib.Broken(f"the HTTP phase did not run: start={h.get('start')!r} stop={h.get('stop')!r}")
+        for k, (a, b) in enumerate(zip(h["conc"], h["ref"])):
+            if a != b:
+                rows.append({"nproc": 0, "g": 1, "ev": "ResultDiffers", "tab": f"http request {k}", "report": [json.dumps(http["requests"][k]), [a], b]})
+        nrace += len(rounds) * ngor + len(progs) + len(http["requests"]) + len(http["main"])
+        if len(rows) > 1:
+            res = run_tlc("Trace_C20", files={"c20.ndjson": ndjson([{k: v for k, v in r.items() if k != "report"} for r in rows])}, workers=1, timeout_s=600, prefix=("V ",))
+            ck.add_tlc(res, f"Trace_C20 race channel n={ngor}")
+            if any(s2.startswith("V accepted") for s2 in res.lines):
+                raise pvlib.Broken("Trace_C20 accepted a trace with Unsync / ResultDiffers events")
+            for r in rows[1:]:
+                if r["ev"] == "Unsync":
+                    ck.reject(f"C20:unsync:{r['tab']}", f"two evaluations access the same interpreter-wide memory without synchronisation: {r['tab']}",
+                              {"n": ngor, "accesses": r["report"]})
+                else:
+                    ck.reject(f"C20:result-differs:{r['report'][0][:40]}", f"{r['tab']}: concurrent evaluations of {r['report'][0]!r} give {sorted(set(r['report'][1]))}, alone it gives {r['report'][2]!r}",
+                              {"n": ngor, "program": r["report"][0], "concurrent": r["report"][1], "alone": r["report"][2]})
+    ck.cov["race_channel"] = {"runs": len(shapes2), "concurrent_evaluations": nrace, "build": "production code, no verif tag, go build -race"}
+    ck.cov["evaluations"] = total_events + nrace
     ck.cov["distinct_nontrivial"] = nontrivial
     ck.cov["traces_validated_against_impl"] = len(shapes)
     ck.cov["rule"] = ("each trace = lock/table events of interpreter start-up (19 goroutines loading native sources) followed by N "
                       "goroutines evaluating programs that intern fresh symbols (identifiers, object keys, JSON keys, kwargs) and "
                       "convert symbols back (evalEnv keys/items); evaluations = events validated; non-trivial = table write events "
-                      "(symbol actually interned under the write lock)")
+                      "(symbol actually interned under the write lock); second channel: the production build under the Go race detector, "
+                      "barrier rounds (all goroutines evaluate the same program at once: calls with 9..40+ arguments, the same symbol converted "
+                      "back and hashed, the same / different new symbols interned at once, JSON keys, keywords, run-time symbols, shared "
+                      "built-in objects), then the random programs, then a real server of the http module answering 80 (thorough 200) requests from 8 clients (new header / query / JSON names, evalEnv in handlers) while the main script goes on; each race report in the interpreter's packages is an Unsync event, "
+                      "which PanLockset never enables")
     ck.assumptions = ["events are emitted by build-time auto-instrumentation of package object (harness/cmd/hookgen) at statement "
                       "granularity; only package-level variables declared in object/hashtable.go are tracked",
                       "lockset discipline is decided per event order recorded under the tracer's mutex; it does not depend on catching a race in the act"]
